@@ -397,7 +397,6 @@ fn dump_norm(src: &str) -> String {
 /// indices resolved to the constant and tuple ids resolved to their (name, labels) shape:
 /// `(code (store) (load 0) (const 5) (tuple Name (l1 -)) ..)` | `(parse-error)` | `(compile-error K)`.
 fn dump_code(src: &str) -> String {
-    use quiver_core::bytecode::{Constant, Instruction};
     let compiled = match qvh::compile_source(src, HashMap::new()) {
         Ok(c) => c,
         Err(e) => return e.line(),
@@ -406,39 +405,56 @@ fn dump_code(src: &str) -> String {
     let Some(entry) = bc.entry else {
         return "(no-entry)".to_string();
     };
-    let mut v = vec![a("code")];
-    for i in &bc.functions[entry].instructions {
-        v.push(match i {
-            Instruction::Constant(k) => match bc.constants.get(*k) {
-                Some(Constant::Integer(n)) => l("const", vec![a(&n.to_string())]),
-                Some(Constant::Binary(b)) => l("const-bin", vec![xhex(b)]),
-                None => l("const", vec![a("?")]),
-            },
-            Instruction::Tuple(t) => match bc.tuples.get(*t) {
-                Some(info) => l(
-                    "tuple",
+    fn code_of(bc: &quiver_core::bytecode::Bytecode, f: usize, depth: usize) -> Sexp {
+        use quiver_core::bytecode::{Constant, Instruction};
+        let mut v = vec![a("code")];
+        let Some(func) = bc.functions.get(f) else {
+            return Sexp::List(v);
+        };
+        for i in &func.instructions {
+            v.push(match i {
+                Instruction::Constant(k) => match bc.constants.get(*k) {
+                    Some(Constant::Integer(n)) => l("const", vec![a(&n.to_string())]),
+                    Some(Constant::Binary(b)) => l("const-bin", vec![xhex(b)]),
+                    None => l("const", vec![a("?")]),
+                },
+                Instruction::Tuple(t) => match bc.tuples.get(*t) {
+                    Some(info) => l(
+                        "tuple",
+                        vec![
+                            opt_name(&info.name),
+                            Sexp::List(info.fields.iter().map(|(n, _)| opt_name(n)).collect()),
+                        ],
+                    ),
+                    None => l("tuple", vec![a("?")]),
+                },
+                Instruction::Pop => l("pop", vec![]),
+                Instruction::Duplicate => l("dup", vec![]),
+                Instruction::Pick(n) => l("pick", vec![a(&n.to_string())]),
+                Instruction::Rotate(n) => l("rot", vec![a(&n.to_string())]),
+                Instruction::Reset(n) => l("reset", vec![a(&n.to_string())]),
+                Instruction::Load(n) => l("load", vec![a(&n.to_string())]),
+                Instruction::Store => l("store", vec![]),
+                Instruction::Get(n) => l("get", vec![a(&n.to_string())]),
+                Instruction::Jump(o) => l("jmp", vec![a(&o.to_string())]),
+                Instruction::JumpIf(o) => l("jmpif", vec![a(&o.to_string())]),
+                Instruction::Not => l("not", vec![]),
+                Instruction::Equal(n) => l("equal", vec![a(&n.to_string())]),
+                Instruction::Call => l("call", vec![]),
+                // a function value: its captures count and (numbering-independent) its own code
+                Instruction::Function(k) if depth < 8 => l(
+                    "fn",
                     vec![
-                        opt_name(&info.name),
-                        Sexp::List(info.fields.iter().map(|(n, _)| opt_name(n)).collect()),
+                        a(&bc.functions.get(*k).map_or(0, |f| f.captures).to_string()),
+                        code_of(bc, *k, depth + 1),
                     ],
                 ),
-                None => l("tuple", vec![a("?")]),
-            },
-            Instruction::Pop => l("pop", vec![]),
-            Instruction::Duplicate => l("dup", vec![]),
-            Instruction::Pick(n) => l("pick", vec![a(&n.to_string())]),
-            Instruction::Rotate(n) => l("rot", vec![a(&n.to_string())]),
-            Instruction::Reset(n) => l("reset", vec![a(&n.to_string())]),
-            Instruction::Load(n) => l("load", vec![a(&n.to_string())]),
-            Instruction::Store => l("store", vec![]),
-            Instruction::Get(n) => l("get", vec![a(&n.to_string())]),
-            Instruction::Jump(o) => l("jmp", vec![a(&o.to_string())]),
-            Instruction::JumpIf(o) => l("jmpif", vec![a(&o.to_string())]),
-            Instruction::Not => l("not", vec![]),
-            other => l("other", vec![a(&format!("{:?}", other).split(['(', ' ']).next().unwrap_or("").to_string())]),
-        });
+                other => l("other", vec![a(&format!("{:?}", other).split(['(', ' ']).next().unwrap_or("").to_string())]),
+            });
+        }
+        Sexp::List(v)
     }
-    Sexp::List(v).to_string()
+    code_of(&bc, entry, 0).to_string()
 }
 
 fn main() {
